@@ -74,6 +74,10 @@ def closerOf (c : Char) : Option Char :=
 
 def isBracket (c : Char) : Bool := isOpener c || (closerOf c).isSome
 
+/-- Every character the pre-scan keys on (sorted); all others are treated alike
+(`Props.C15.budget_key_chars`). -/
+def keyChars : List Char := ['\n', '"', '(', ')', '/', '[', '\\', ']', '{', '}']
+
 /-- One iteration of the `for ch in input.chars()` loop. -/
 def step (maxDepth : Nat) (st : BState) (ch : Char) : Except BudgetErr BState :=
   if st.lex.inLineComment then
